@@ -1,10 +1,11 @@
 import XalanModel.C17.Format
 import XalanModel.C17.Spec
+import XalanModel.C17.Forest
 import Driver.Util
 /-
 xm_c17: replays xsl:number requests on the Lean model and on the Lean specification.
 
-  doc <parent of node 0 (= -1)> <parent of node 1> …        -> ok n=<N> wf=<0|1>
+  doc <parent of node 0 (= -1)> <parent of node 1> …        -> ok n=<N> wf=<0|1>   (wf: the list is a document-order parent list, i.e. Doc.ofForest of the forest read from it has exactly these parents)
   cls <class id per node>                                     -> ok            (default count pattern = same class)
   num <s|m|a> <count bits|-> <count bits for the specification|=> <from bits|-> <fmt hex|-> <gsep hex|-> <gsize|-> <visited node>…
         -> one entry per visit:  <formatted hex | !err>|<model list>|<spec list>|<flags>
@@ -34,15 +35,25 @@ def alnum (c : Nat) : Bool :=
   c == 0xE9 || c == 0x3A9 ||     -- é, Ω are XML letters (used by the generator as "strange" alnum characters)
   (0x3B1 ≤ c && c ≤ 0x3C9)       -- Greek small letters α … ω (XML BaseChar): the Greek numbering token and its output
 
-/-- the model's `Doc.ofParents` (the document the theorems are about: `Doc.ofParents_closed`, `WF` checked per
-document), with its three navigation functions tabulated once per document -/
+/-- The document of a parent list: read into the inductive `Forest` and flattened by `Doc.ofForest` — the documents
+the counting theorems hold for without hypothesis (`forest_doc_wf`: every flattened forest is `WF` and `Closed`).  The
+navigation functions are the flattened ones, copied once into arrays for speed. -/
 def mkDoc (parents : Array Int) : Doc :=
-  let d0 := Doc.ofParents parents.toList
+  let d0 := Doc.ofForest (Forest.ofParents parents.toList)
   let n := d0.size
   let par : Array (Option Nat) := Array.ofFn (n := n) fun i => d0.parent i.val
   let ps : Array (Option Nat) := Array.ofFn (n := n) fun i => d0.prevSib i.val
   let lc : Array (Option Nat) := Array.ofFn (n := n) fun i => d0.lastChild i.val
   { size := n, parent := fun i => (par[i]?).join, prevSib := fun i => (ps[i]?).join, lastChild := fun i => (lc[i]?).join }
+
+/-- did reading the parent list into a forest lose anything?  (same number of nodes, same parent for every node: the
+request really was a parent list in document order) -/
+def faithful (parents : Array Int) (d : Doc) : Bool :=
+  d.size == parents.size &&
+  (List.range parents.size).all fun i =>
+    d.parent i == (match parents[i]? with
+      | some p => if p < 0 then none else some p.toNat
+      | none => none)
 
 def bits (s : String) : Option (Nat → Bool) :=
   if s = "-" then none else
@@ -130,7 +141,7 @@ def step (s : St) : List String → St × String
     | some l =>
       let s' := { s with parents := l.toArray, cls := #[], owners := #[] }
       let d := mkDoc s'.parents
-      (s', s!"ok n={d.size} wf={if decide d.WF then 1 else 0}")
+      (s', s!"ok n={d.size} wf={if faithful s'.parents d then 1 else 0}")
     | none => (s, "bad")
   | "cls" :: cs =>
     match cs.mapM String.toNat? with
